@@ -1,6 +1,6 @@
 (* Correspondence interface used by harness/cmd/mkvs: case types, the model
    runners and the comparison functions.  Definitions only. *)
-From Verif Require Import Lib.Base Mkvs.Trie Mkvs.Overlay Mkvs.Key Mkvs.Iter.
+From Verif Require Import Lib.Base Mkvs.Trie Mkvs.Overlay Mkvs.Key Mkvs.Iter Mkvs.Fork.
 
 (* ------------------------------------------------------------------ *)
 (* C02: shape and root hash                                             *)
@@ -61,12 +61,12 @@ Definition c02_eqb (a b : c02_out) : bool :=
 (* ------------------------------------------------------------------ *)
 (* C03: every answer of the tree / overlay stack                        *)
 (* ------------------------------------------------------------------ *)
-Definition c03_in := (bool * list sop)%type.     (* (write log enabled, history) *)
+Definition c03_in := (bool * list fop)%type.     (* (write log enabled, history incl. overlay copies) *)
 Definition c03_out := list sres.
 
 (* the tree-level iterator evaluated here is the byte-level PORT of
    treeIterator.doNext (Mkvs/Iter.v), not the specification iterator *)
-Definition run_c03 (i : c03_in) : c03_out := snd (s_run_p (t_init (fst i), []) (snd i)).
+Definition run_c03 (i : c03_in) : c03_out := snd (f_run ((t_init (fst i), []), None) (snd i)).
 
 Definition opt_bytes_eqb (a b : option bytes) : bool :=
   match a, b with
